@@ -726,6 +726,28 @@ def _deep_child(_job):
         c[typing.ForwardRef(text, module="c16_deep", is_class=True)] = r
         if look(c, W) is not r or get(c, W, d) is not r:
             bad.append([w, f"ctx[ForwardRef({text!r}, module)] = r; ctx[{w}] gives {look(c, W)!r}, not r"])
+    # a string-valued alias declared in a SUBMODULE of a package, its text the bare name or the fully qualified one: both unwrap to
+    # the reference naming the class in its defining module, the key under which forwardref(Order) stores
+    pkg, sub = types.ModuleType("c16_shop"), types.ModuleType("c16_shop.models")
+    pkg.__path__ = []
+    pkg.models = sub
+    sys.modules["c16_shop"], sys.modules["c16_shop.models"] = pkg, sub
+    exec(compile("import dataclasses, typing\n@dataclasses.dataclass\nclass Order:\n    n: int = 0\n"
+                 "OrderShort = typing.TypeAliasType('OrderShort', 'Order')\n"
+                 "OrderQualified = typing.TypeAliasType('OrderQualified', 'c16_shop.models.Order')\n"
+                 "NOrderQ = typing.NewType('NOrderQ', OrderQualified)\n", "c16_shop/models.py", "exec"), sub.__dict__)
+    from typelib.py import refs as trefs
+    for stored, label in ((typing.ForwardRef("Order", module="c16_shop.models", is_class=True), "ForwardRef('Order', module='c16_shop.models')"),
+                          (trefs.forwardref(sub.Order), "refs.forwardref(Order)")):
+        for w in ("OrderShort", "OrderQualified", "NOrderQ"):
+            c = tctx.TypeContext()
+            W = getattr(sub, w)
+            if look(c, W) is not KeyError or get(c, W, d) is not d:
+                bad.append([w, f"absent key c16_shop.models.{w}: expected KeyError and the default"])
+            c[stored] = r
+            if look(c, W) is not r or get(c, W, d) is not r:
+                bad.append([w, f"ctx[{label}] = r; ctx[{w}] (a string-valued alias declared in c16_shop.models, text "
+                               f"{getattr(W, '__value__', None)!r}) gives {look(c, W)!r}, not r"])
     c = tctx.TypeContext()
     c[typing.ForwardRef("Later", module="c16_deep", is_class=True)] = r
     before = look(c, ns["Fwd"])
